@@ -33,7 +33,10 @@ def program_sets(tier):
     from pv.props.c02 import BIND_CTL
 
     extra = frozenset({"try-except-noname", "try-except-else", "with-noas", "raise-base", "global-read", "shadowed-builtin"})
-    return [("gen", dict()), ("ctl", dict(size=C.SIZE[tier] + 1, only=BIND_CTL | extra, key=("c10ctl", tier))),
+    scoping = frozenset({"assign", "import-as", "del", "try-except", "try-except-noname", "with", "with-two", "for", "for-else",
+                         "while-else", "global-read", "shadowed-builtin", "if-walrus", "raise-base", "def", "class"})
+    ctl = (BIND_CTL | extra) if tier == "thorough" else scoping
+    return [("gen", dict()), ("ctl", dict(size=C.SIZE[tier] + 1, only=ctl, key=("c10ctl", tier))),
             ("sig", dict(size=1 if tier == "quick" else 2, sigs=("rich", "kwonly", "doc"), key=("c10sig", tier)))]
 
 
